@@ -5,6 +5,7 @@ package main
 
 import (
 	"fmt"
+	"os"
 	"sort"
 	"strings"
 
@@ -119,7 +120,10 @@ func stdSweep(rep *lib.Report) {
 	rep.Extra["std_reachable_functions"] = len(fns)
 	limit := 250
 	if lib.Thorough() {
-		limit = 6000
+		limit = 3000
+	}
+	if e := os.Getenv("VERIF_C08_STD"); e != "" {
+		fmt.Sscan(e, &limit)
 	}
 	if len(fns) > limit { // seeded sample, deterministic for a seed
 		r := lib.Rand("c08-std")
